@@ -109,6 +109,10 @@ pub struct HandlerRunner {
     ledger: Ledger,
     last_sig_cd: Option<u64>,
     delivering_handshake: bool,
+    /// claimed source id (index) of the datagram being delivered in this step, if any
+    cur_src: Option<u64>,
+    /// whether the datagram being delivered carries a ciphertext that verifies under a known key
+    cur_authentic: bool,
     ttl_ms: u64,
     /// C15: number of session keys known when the last idle period longer than the ttl ended, and
     /// the wire length at that moment
@@ -139,6 +143,8 @@ impl Default for HandlerRunner {
             ledger: Ledger::default(),
             last_sig_cd: None,
             delivering_handshake: false,
+            cur_src: None,
+            cur_authentic: true,
             ttl_ms: 86_400_000,
             old_keys_mark: 0,
             old_wire_mark: 0,
@@ -153,6 +159,23 @@ impl Default for HandlerRunner {
 /// The static key of party `idx` (deterministic; `CombinedKey` is not `Clone`).
 fn key_of_idx(idx: u64) -> CombinedKey {
     key_from(&mut Rng::new(0xABCD_0000 + idx))
+}
+
+/// The associated data of a datagram computed from the *received bytes* (IV ‖ unmasked static
+/// header ‖ unmasked auth-data), independently of the crate's decoder.
+fn independent_aad(bytes: &[u8], local_id: &NodeId) -> Option<Vec<u8>> {
+    if bytes.len() < 39 {
+        return None;
+    }
+    let ks = keystream(&local_id.raw(), &bytes[..16], bytes.len() - 16);
+    let un: Vec<u8> = bytes[16..].iter().zip(ks.iter()).map(|(a, b)| a ^ b).collect();
+    let n = u16::from_be_bytes([un[21], un[22]]) as usize;
+    if 23 + n > un.len() {
+        return None;
+    }
+    let mut aad = bytes[..16].to_vec();
+    aad.extend_from_slice(&un[..23 + n]);
+    Some(aad)
 }
 
 fn node_addr(idx: u64) -> SocketAddr {
@@ -212,6 +235,10 @@ impl HandlerRunner {
         let v = 50 + self.ids.len() as u64;
         self.ids.insert(*id, v);
         v
+    }
+
+    fn id_idx_ro(&self, id: &NodeId) -> u64 {
+        *self.ids.get(id).unwrap_or(&0)
     }
 
     fn na(&mut self, na: &NodeAddress) -> String {
@@ -340,7 +367,9 @@ impl HandlerRunner {
             None => *self.ids.iter().find(|(_, v)| **v == local_idx)?.0,
         };
         let lkey = self.key_for_idx(local_idx).map(|x| x.0);
-        let (p, aad): (RawPacket, Vec<u8>) = packet_decode(&local_id, ProtocolIdentity::default(), bytes).ok()?;
+        let (p, aad_impl): (RawPacket, Vec<u8>) = packet_decode(&local_id, ProtocolIdentity::default(), bytes).ok()?;
+        // what the AEAD must be bound to: the received header bytes (not the decoder's view of them)
+        let aad = independent_aad(bytes, &local_id).unwrap_or(aad_impl);
         let nn = self.name_nonce(&p.nonce, owner);
         match &p.kind {
             PacketKind::WhoAreYou { id_nonce, enr_seq } => {
@@ -441,6 +470,13 @@ impl HandlerRunner {
                     let r = self.rec(&enr);
                     let a = self.addr_idx(addr);
                     events.push(format!("est>{}>{}>{}", r, a, if dir == ConnectionDirection::Outgoing { "o" } else { "i" }));
+                    // C01: a session reported in reaction to a datagram names the datagram's source id
+                    if let Some(srcidx) = self.cur_src {
+                        let who = self.id_idx(&enr.node_id());
+                        if who != srcidx {
+                            out.push(format!("!MON C01 established-for-foreign-record node={} source={} record-id={}", idx, srcidx, who));
+                        }
+                    }
                     let dh = self.delivering_handshake;
                     self.mon_identity(idx, &enr.node_id(), addr, dh, "established", out);
                     if self.delivering_handshake {
@@ -464,6 +500,9 @@ impl HandlerRunner {
                     events.push(format!("req>{}>{}>{}", self.na(&na), rid, code_of(&req.body)));
                     self.mon_identity(idx, &na.node_id, na.socket_addr, true, "request", out);
                     self.mon_authentic(idx, &na, &Message::Request((*req).clone()).encode(), out);
+                    if !self.cur_authentic {
+                        out.push(format!("!MON C02 delivered-from-unauthenticated-datagram node={} kind=request", idx));
+                    }
                     self.nodes[ni].requests.push((na, *req));
                 }
                 HandlerOut::Response(na, resp) => {
@@ -472,6 +511,9 @@ impl HandlerRunner {
                     let rb = self.rb_term(&resp.body);
                     events.push(format!("rsp>{}>{}>{}", self.na(&na), rid, rb));
                     self.mon_authentic(idx, &na, &Message::Response((*resp).clone()).encode(), out);
+                    if !self.cur_authentic {
+                        out.push(format!("!MON C02 delivered-from-unauthenticated-datagram node={} kind=response", idx));
+                    }
                     if let Some(l) = self.ledger.reqs.get_mut(&(idx, rid)) {
                         l.responses += 1;
                         if l.failures > 0 {
@@ -844,6 +886,8 @@ impl HandlerRunner {
     fn step_world(&mut self, t: &[&str], out: &mut Vec<String>, stats: &mut Stats) {
         if t[0] != "hdel" {
             self.delivering_handshake = false;
+            self.cur_src = None;
+            self.cur_authentic = true;
         }
         match t {
             // application of node X sends a request to node Y
@@ -920,6 +964,12 @@ impl HandlerRunner {
                     "nodes0" => ResponseBody::Nodes { total: 1, nodes: vec![] },
                     "nodes3" => ResponseBody::Nodes { total: 3, nodes: vec![] },
                     "nodesbad" => ResponseBody::Nodes { total: 1, nodes: vec![self.attacker_enr.clone().unwrap()] },
+                    // the (validly signed) record of some other node, which may advertise no socket
+                    "nodesother" => {
+                        let me = self.nodes[xi].idx;
+                        let other = self.nodes.iter().find(|n| n.idx != me && n.idx != self.id_idx_ro(&na.node_id)).or_else(|| self.nodes.iter().find(|n| n.idx != me)).map(|n| n.enr.clone()).unwrap_or(own.clone());
+                        ResponseBody::Nodes { total: 1, nodes: vec![other] }
+                    }
                     _ => ResponseBody::Talk { response: b"y".to_vec() },
                 };
                 let resp = Response { id: req.id.clone(), body };
@@ -959,6 +1009,11 @@ impl HandlerRunner {
                 self.last_sig_cd = None;
                 let term = self.describe(&d.bytes, tidx, d.from_idx, false);
                 self.delivering_handshake = term.as_ref().map(|t| t.starts_with("H~")).unwrap_or(false);
+                self.cur_authentic = term.as_ref().map(|t| t.contains("E[")).unwrap_or(false);
+                self.cur_src = term.as_ref().and_then(|t| {
+                    let f: Vec<&str> = t.split('~').collect();
+                    if f[0] == "M" || f[0] == "H" { f.get(1).and_then(|x| x.parse().ok()) } else { None }
+                });
                 // ledgers: a genuine signature inside this handshake? an outstanding challenge answered?
                 if let Some(tm) = &term {
                     if let Some(s) = tm.split('~').nth(3) {
@@ -1044,6 +1099,26 @@ impl HandlerRunner {
                         "flip" => { if !b.is_empty() { let i = a / 8 % b.len(); b[i] ^= 1 << (a % 8); } }
                         "trunc" => { b.truncate(a % (b.len() + 1)); }
                         "extend" => { b.extend_from_slice(&vec![0x5a; a % 40 + 1]); }
+                        "authpad" => {
+                            if b.len() >= 39 {
+                                let ks = keystream(&d.dst_id.raw(), &b[..16], b.len() - 16 + 64);
+                                let mut un: Vec<u8> = b[16..].iter().zip(ks.iter()).map(|(x, y)| x ^ y).collect();
+                                let n = u16::from_be_bytes([un[21], un[22]]) as usize;
+                                if 23 + n <= un.len() {
+                                    let extra = a % 7 + 1;
+                                    let body = un.split_off(23 + n);
+                                    let body: Vec<u8> = body.iter().zip(ks[23 + n..].iter()).map(|(x, y)| x ^ y).collect(); // body was never masked: undo
+                                    un.extend(std::iter::repeat(0x41).take(extra));
+                                    let sz = (n + extra) as u16;
+                                    un[21] = (sz >> 8) as u8;
+                                    un[22] = sz as u8;
+                                    let mut nb = b[..16].to_vec();
+                                    nb.extend(un.iter().zip(ks.iter()).map(|(x, y)| x ^ y));
+                                    nb.extend_from_slice(&body);
+                                    b = nb;
+                                }
+                            }
+                        }
                         "splice" => {
                             // header of #k with the body of #arg
                             if let Some(o) = self.wire.get(a) {
@@ -1218,7 +1293,9 @@ pub fn gen_case(rng: &mut Rng, tier: &str, profile: &str, stats: &mut Stats) -> 
         ops.push("hdel next".into());
         ops.push(format!("hwru {} next {}", y, if rng.chance(1, 2) { "none" } else { "known" }));
         for _ in 0..3 { ops.push("hdel next".into()); }
-        for _ in 0..2 { ops.push(format!("hresp {} next auto", y)); ops.push("hdel next".into()); }
+        let enr_answer = match rng.below(5) { 0 => "nodesother", 1 => "nodesbad", _ => "auto" };
+        ops.push(format!("hresp {} next auto", y)); ops.push("hdel next".into());
+        ops.push(format!("hresp {} next {}", y, enr_answer)); ops.push("hdel next".into());
         ops.push("hdel next".into());
         ops.push(format!("hadv {}", rng.range(200, 390)));
         ops.push(format!("hreq {} {} enr {} {}", x, y, rid, rng.range(1, 4)));
@@ -1234,7 +1311,8 @@ pub fn gen_case(rng: &mut Rng, tier: &str, profile: &str, stats: &mut Stats) -> 
             // tamper campaign: every kind of mutation of a captured datagram, redirection to another
             // node, presentation from another source address
             let k = rng.below(emitted);
-            match rng.below(7) {
+            match rng.below(8) {
+                7 => { ops.push(format!("hmut {} authpad {}", k, rng.below(7))); ops.push("hdel last".into()); }
                 0 | 1 => { ops.push(format!("hmut {} flip {}", k, rng.below(12000))); ops.push("hdel last".into()); }
                 2 => { ops.push(format!("hmut {} trunc {}", k, rng.below(400))); ops.push("hdel last".into()); }
                 3 => { ops.push(format!("hmut {} extend {}", k, rng.below(40))); ops.push("hdel last".into()); }
@@ -1271,7 +1349,7 @@ pub fn gen_case(rng: &mut Rng, tier: &str, profile: &str, stats: &mut Stats) -> 
             }
             73..=84 => {
                 let x = rng.range(1, n);
-                let kind = match rng.below(14) { 0 => "nodes1", 1 => "nodes3", 2 => "nodes0", 3 => "talk", 4 => "nodesbad", 5 => "pong", _ => "auto" };
+                let kind = match rng.below(15) { 0 => "nodes1", 1 => "nodes3", 2 => "nodes0", 3 => "talk", 4 => "nodesbad", 5 => "pong", 6 => "nodesother", _ => "auto" };
                 ops.push(format!("hresp {} next {}", x, kind));
                 emitted += 1;
             }
